@@ -42,6 +42,10 @@ def strip_ann(t):
     return re.sub(r"@[^ )]*", "", t)
 
 
+class Abort(Exception):
+    """the history cannot go on (a finding has been recorded)"""
+
+
 class ResHost:
     """the component-model host of one guest instance (one item of a batch)"""
 
@@ -196,6 +200,9 @@ class ResHost:
     def pick_exp_owned(self, remove):
         if not self.exp_owned:
             self.construct()
+        if not self.exp_owned:
+            self.fail("resource:constructor-did-not-yield-resource", "after the exported constructor returned the host holds no live resource (handle not transferred, or the value was destroyed)")
+            raise Abort()
         rep = self.rng.choice(sorted(self.exp_owned))
         if remove:
             del self.exp_owned[rep]
@@ -420,6 +427,8 @@ class ResHost:
                 self.fail("call-failed", f"batch binary died ({e})")
                 self.r.restart_native()
                 return
+            except Abort:
+                return
         # wind down: the guest drops what it still holds, the host drops what it owns
         while self.stashed: self.unstash_step()
         while self.exp_owned: self.host_drop_step()
@@ -475,6 +484,8 @@ def run(c):
             if m["dir"] == "item" and m["status"] != "ok":
                 c.spec_violation("rust-generator-failed", f"the Rust generator {m['status']}s on a valid resource world: {m.get('message', '')[:300]}",
                                  {"config": m["config"], "wit": items[gmap[m['item']]][1]})
+        fr = bc.flags_lift_rendering(batch)
+        bc.Runner.flags_mode = fr if fr in ("zext", "sext") else "zext"
         r = bc.Runner(batch.binary, host)
         try:
             for it in sorted({m["item"] for m in batch.manifest if m["dir"] == "item" and m["status"] == "ok"}):
@@ -490,7 +501,7 @@ def run(c):
                 ans = hostp.rq("resource|" + ";".join(h.trace)) or "m_host died"
                 treqs.append(f"w{gmap[it]} " + ";".join(h.trace)[:4000])
                 timpl.append("accepted" if not any(f[0].startswith("resource:") for f in h.findings) else "rejected")
-                tmodel.append("accepted" if ans == "ok" else ans)
+                tmodel.append("accepted" if ans == "ok" else "rejected")
                 c.evaluations += 1
                 if any(t.startswith("own- ") for t in h.trace) and any(t.startswith("lend ") for t in h.trace) and any(t.startswith("dtor ") for t in h.trace):
                     c.nontrivial.add(treqs[-1])
